@@ -444,9 +444,18 @@ func observe(S string, mode Mode, runner Runner, env Env) (o Observed) {
 			o.Budget = true
 		default:
 			if d := compareTestRuns(base, fr, env); d != "" {
-				if testLineSensitive(S, base, env) {
+				// Runs in one process are not fully independent (package imports are
+				// cached process-wide). The difference counts only if S still behaves
+				// like its baseline when run AFTER F, and F behaves like F again.
+				s3 := runTestFile(S, env.unit(), env.Arena, false)
+				f2 := runTestFile(o.F, env.unit(), env.Arena, false)
+
+				switch {
+				case compareTestRuns(base, s3, env) != "" || compareTestRuns(fr, f2, env) != "":
+					o.Flaky = true
+				case testLineSensitive(S, base, env):
 					o.LineSens = true
-				} else {
+				default:
 					o.Findings = append(o.Findings, Finding{Kind: "behaviour", Detail: d})
 				}
 			}
